@@ -115,9 +115,11 @@ class MessageRouter :
         if path_namespace:
             r.add('path_namespace', path_namespace)
         if args:
-            r.add('args', args)
+            # the rule is what was asked for now: the caller's list is
+            # the caller's to change afterwards
+            r.add('args', list(args))
         if arg_paths:
-            r.add('arg_paths', arg_paths)
+            r.add('arg_paths', list(arg_paths))
         if arg0namespace:
             r.add('arg0namespace', arg0namespace)
 
